@@ -11,6 +11,7 @@ import (
 	"encoding/json"
 	"net/http"
 	"os"
+	"strconv"
 	"time"
 
 	"github.com/tsenart/vegeta/v12/internal/resolver"
@@ -102,6 +103,12 @@ func init() {
 			resp.List = norm
 			resp.Errs = append(resp.Errs, errstr(err))
 			resp.String = l.String()
+		case "resolverseq":
+			// values: the resolver addresses, then the number of DNS dials to enumerate
+			if len(req.Values) >= 2 {
+				n, _ := strconv.Atoi(req.Values[len(req.Values)-1])
+				resp.List = resolver.VerifAddressSeq(req.Values[:len(req.Values)-1], n)
+			}
 		default:
 			resp.Errs = []string{"unknown op"}
 		}
